@@ -30,6 +30,7 @@ func genC17(r *simrt.Rand, tier string, idx int) *hx.Program {
 	p := &hx.Program{P: map[string]int64{}}
 	p.P["sticky"] = 95
 	p.P["seg"] = []int64{200, 1000, 100000}[r.Intn(3)]
+	p.P["server_default"] = int64(r.Intn(3) / 2) // encryption through the server-wide default (1) or the stream option (0)
 	p.P["seed"] = int64(r.Uint64() >> 1)
 	p.P["batchtime_ms"] = []int64{0, 5, 50}[r.Intn(3)]
 	p.P["batchmax"] = []int64{2, 16, 1024}[r.Intn(3)]
@@ -89,6 +90,8 @@ func execC17(t *testing.T, prog *hx.Program, dec *simrt.Decider, verbose bool) *
 		h.cfgHook = func(n *simNode, c *Config) {
 			c.BatchMaxMessages = int(prog.Param("batchmax", 1024))
 			c.BatchMaxTime = time.Duration(prog.Param("batchtime_ms", 0)) * time.Millisecond
+			// encryption asked for by the server-wide default (streams.encryption) instead of the stream's own option
+			c.Streams.Encryption = prog.Param("server_default", 0) == 1
 		}
 		n := h.single()
 		if n == nil {
@@ -98,8 +101,12 @@ func execC17(t *testing.T, prog *hx.Program, dec *simrt.Decider, verbose bool) *
 		h.rpc(n, "create", func(api *apiServer) {
 			ctx, cancel := ctxT(10 * time.Second)
 			defer cancel()
-			_, cerr = api.CreateStream(ctx, &client.CreateStreamRequest{Name: "enc", Subject: "enc", Partitions: 1, ReplicationFactor: 1,
-				Encryption: nb(true), SegmentMaxBytes: &client.NullableInt64{Value: prog.Param("seg", 1000)}})
+			req := &client.CreateStreamRequest{Name: "enc", Subject: "enc", Partitions: 1, ReplicationFactor: 1,
+				Encryption: nb(true), SegmentMaxBytes: &client.NullableInt64{Value: prog.Param("seg", 1000)}}
+			if prog.Param("server_default", 0) == 1 {
+				req.Encryption = nil
+			}
+			_, cerr = api.CreateStream(ctx, req)
 		})
 		if cerr != nil {
 			h.oc.Trouble = "create stream: " + cerr.Error()
